@@ -75,7 +75,7 @@ CHECKS = {
     ),
     "C12": (
         "exploration",
-        "exhaustive enumeration (multiprocessing) of all pointer structures of <= 3 persons and (sampled in quick, complete in thorough) <= 4 persons x all row orders, plus Hypothesis-generated populations, against a reference model of the unit definitions; nesting invariants",
+        "exhaustive enumeration (multiprocessing) of all pointer structures of <= 3 persons and (a seed-dependent sample: 1/40 in quick, 1/3 in thorough) 4 persons x all row orders, both placements of a parent in the two parent columns, plus Hypothesis-generated populations, against a reference model of the unit definitions; nesting invariants",
         "The partitions fg/bg/eg/ehe/sn computed by the grouping functions are compared with a union-find reference written from hh_concepts.md for every enumerated structure and row order; random populations go through the interface and add wthh_id and the nesting / no-collision invariants.",
         "Structures on which the documentation is silent are only checked for the invariants (counted as under-specified).",
         "3/C12",
